@@ -1,5 +1,11 @@
 #!/bin/bash
-# intake.sh <PID>: confirm /tmp/agents/<PID>/{m4,m5,t1,t2} and file them under /verif/seeded and /verif/twins
-P=$1
-for m in m4 m5 m6 m7; do [ -f /tmp/agents/$P/$m/patch.diff ] && /venv/bin/python /verif/tools/confirm_seed.py /tmp/agents/$P/$m $P-$m $P 2>&1 | grep -v conda; done
-for t in t1 t2 t3 t4; do [ -f /tmp/agents/$P/$t/patch.diff ] && /venv/bin/python /verif/tools/confirm_twin.py /tmp/agents/$P/$t $P-$t 2>&1 | grep -v conda; done
+# intake.sh <PID> [items...]: confirm /tmp/agents/<PID>/<item> (default: m6 m7 t3 t4) and file them under /verif/seeded and /verif/twins
+P=$1; shift
+ITEMS=${@:-m6 m7 t3 t4}
+for i in $ITEMS; do
+  [ -f /tmp/agents/$P/$i/patch.diff ] || continue
+  case $i in
+    m*) [ -d /verif/seeded/$P-$i ] || /venv/bin/python /verif/tools/confirm_seed.py /tmp/agents/$P/$i $P-$i $P 2>&1 | grep -v conda;;
+    t*) [ -f /verif/twins/$P-$i.diff ] || /venv/bin/python /verif/tools/confirm_twin.py /tmp/agents/$P/$i $P-$i 2>&1 | grep -v conda;;
+  esac
+done
